@@ -288,7 +288,7 @@ func (in *inst) rawBuild(op *Op) outcome {
 		for _, i := range rperm {
 			r := p.Rules[i]
 			ro := enum.New(r.Name, r.Text)
-			if d := in.donor; d != nil && d.built && len(d.ruleObjs) == len(p.Rules) && d.ruleObjs[i] != nil && d.proj.Rules[i] == r {
+			if d := in.donor; d != nil && d.built && i < len(d.ruleObjs) && d.ruleObjs[i] != nil && d.proj.Rules[i] == r {
 				ro = d.ruleObjs[i]
 			}
 			in.ruleObjs[i] = ro
@@ -299,7 +299,7 @@ func (in *inst) rawBuild(op *Op) outcome {
 		for _, i := range tperm {
 			t := p.Types[i]
 			to := newSchemaFor(t)
-			if d := in.donor; d != nil && d.built && len(d.typeObjs) == len(p.Types) && d.typeObjs[i] != nil && d.proj.Types[i] == t {
+			if d := in.donor; d != nil && d.built && i < len(d.typeObjs) && d.typeObjs[i] != nil && d.proj.Types[i] == t {
 				to = d.typeObjs[i]
 			}
 			in.typeObjs[i] = to
